@@ -117,6 +117,10 @@ def run(ctx):
                 items.append("{FOCUS <%s> _}@<%sS2>" % (rng.choice(props), EX))
             subs = sorted({s[1] for s, _, _ in g})
             items.append("<%s>@<%sS3>" % (rng.choice(subs), EX))
+            if props:
+                # a SPARQL selector whose variable is not lower case
+                items.append('SPARQL "SELECT ?%s WHERE { ?%s <%s> ?o }"@<%sS4>' % (("Node",) * 2 + (rng.choice(props), EX)) if rng.random() < 0.5 else
+                             'SPARQL "select ?theNode where { ?theNode <%s> ?Obj }"@<%sS4>' % (rng.choice(props), EX))
             rng.shuffle(items)
             kw = {k: v for k, v in kw.items() if k not in ('target_classes', 'all_classes_mode')}
             kw['shape_map_raw'] = "\n".join(items[: rng.randint(1, len(items))])
